@@ -61,7 +61,10 @@ func RunCfg(cfg vrt.Config, prefix []int32, doc map[string]any, sql string, opts
 		inBeforeRun = false
 	}
 	o := &Out{}
+	// the usage differential belongs to plain sequential runs, not to explored executions
+	usageOff = cfg.Sched || cfg.MapOrder
 	o.Res = vrt.Run(cfg, prefix, func() { Call(o, doc, sql, opts...) })
+	usageOff = false
 	o.GPanic = o.Res.GPanic
 	return o
 }
@@ -86,6 +89,14 @@ func Call(o *Out, doc map[string]any, sql string, opts ...genql.QueryOption) {
 	stage = 1
 	rows, err := q.Exec()
 	o.Rows, o.Err = rows, err
+	if Usage != nil && err == nil && !inUsage && !usageOff {
+		inUsage = true
+		usageChecks(q, doc, sql, rows, opts)
+		inUsage = false
+		// the caller gets an untouched result: the first one was edited on purpose
+		rows, err = q.Exec()
+		o.Rows, o.Err = rows, err
+	}
 	if ReExec && err == nil {
 		// the same Query object executed again (and again): rendered results of the repetitions
 		first := Render(rows)
@@ -98,6 +109,94 @@ func Call(o *Out, doc map[string]any, sql string, opts ...genql.QueryOption) {
 			o.Again = append(o.Again, Render(rows2))
 		}
 		o.First = first
+	}
+}
+
+// Usage, when set, receives a description of every discrepancy found by the API-usage differential
+// that Call then performs on every successfully executed query:
+//   - the rows of the first result are edited (keys added, values overwritten, rows swapped) and the
+//     same Query is executed again: it must return what it returned the first time - a result is the
+//     caller's to keep and to change, it must not be wired into the Query or into the document;
+//   - the document must not change when a result is edited at its top level;
+//   - a query built without options must return the same through Parse + Prepare(doc, stmt, &Options{})
+//     (the exported pieces New is made of) - built twice from one parsed statement, executed on
+//     fresh copies of the document.
+var Usage func(what string)
+var inUsage, usageOff bool
+
+// sameResult compares two rendered results: as sequences, or - for joins, whose row order is not
+// fixed - as multisets of rows.
+func sameResult(sql string, a, b []any) bool {
+	if Render(a) == Render(b) {
+		return true
+	}
+	if !strings.Contains(sql, " JOIN ") || len(a) != len(b) {
+		return false
+	}
+	x, y := RenderRows(a), RenderRows(b)
+	sort.Strings(x)
+	sort.Strings(y)
+	return SameSeq(x, y)
+}
+
+func scribble(rows []any) {
+	for i, r := range rows {
+		switch t := r.(type) {
+		case map[string]any:
+			for k := range t {
+				t[k] = "\x00edited"
+			}
+			t["\x00added"] = float64(i)
+		case []any:
+			scribble(t)
+		}
+	}
+	if len(rows) > 1 {
+		rows[0], rows[len(rows)-1] = rows[len(rows)-1], rows[0]
+	}
+}
+
+func usageChecks(q *genql.Query, doc map[string]any, sql string, rows []any, opts []genql.QueryOption) {
+	defer func() {
+		if r := recover(); r != nil {
+			Usage(fmt.Sprintf("%s: panic during the usage differential: %v", sql, r))
+		}
+	}()
+	first := Render(rows)
+	firstRows, _ := Clone(any(rows)).([]any)
+	before := Snapshot(doc)
+	scribble(rows)
+	if d := before.Diff(doc); d != "" {
+		Usage(fmt.Sprintf("%s: editing the rows of the result changed the document: %s", sql, d))
+		return
+	}
+	rows2, err2 := q.Exec()
+	if err2 != nil {
+		Usage(fmt.Sprintf("%s: the same Query executed again (after the first result had been edited by the caller) failed: %v; the first Exec returned %s", sql, err2, first))
+		return
+	}
+	if again := Render(rows2); !sameResult(sql, rows2, firstRows) {
+		Usage(fmt.Sprintf("%s: the same Query executed again (after the first result had been edited by the caller) returned %s; the first Exec returned %s", sql, again, first))
+		return
+	}
+	if len(opts) != 0 {
+		return
+	}
+	stmt, err := genql.Parse(sql)
+	if err != nil {
+		return
+	}
+	for k := 0; k < 2; k++ {
+		pq, err := genql.Prepare(CloneMap(doc), stmt, &genql.Options{})
+		if err != nil {
+			Usage(fmt.Sprintf("%s: built through Parse + Prepare(doc, stmt, &Options{}) (build #%d from one parsed statement) fails: %v; New + Exec returns %s", sql, k+1, err, first))
+			return
+		}
+		prow, perr := pq.Exec()
+		if perr != nil || !sameResult(sql, prow, firstRows) {
+			Usage(fmt.Sprintf("%s: built through Parse + Prepare(doc, stmt, &Options{}) (build #%d from one parsed statement) returns %s (%v); New + Exec returns %s", sql, k+1, Render(prow), perr, first))
+			return
+		}
 	}
 }
 
